@@ -3,20 +3,33 @@ use vstd::prelude::*;
 verus! {
 
 // ---- prelude: abstract stand-ins for types the extracted code mentions (trusted shapes, no behaviour)
-pub struct Instruction { pub opcode: u8 }
+pub struct Value { pub id: u64 }
 pub enum ErrorKind { OutOfFuel, Other }
 pub struct Error { pub kind: ErrorKind }
 impl Error {
     pub fn from(kind: ErrorKind) -> (r: Error) ensures r.kind == kind { Error { kind } }
 }
 
-// cost of an instruction: its contract (0 or 1, a function of the instruction only) is discharged by the Kani
-// obligation fuel_cost_classes on the real fuel_for_instruction; here it is an assumed contract.
-pub uninterp spec fn spec_cost(i: &Instruction) -> int;
-#[verifier::external_body]
-fn fuel_for_instruction(instr: &Instruction) -> (r: isize)
-    ensures r as int == spec_cost(instr), 0 <= r <= 1
-{ unimplemented!() }
+// ---- the real instruction set (extracted verbatim; cfg evaluated for the default feature set)
+//@ extract file=minijinja/src/compiler/instructions.rs item=type:LocalId
+//@ extract file=minijinja/src/compiler/instructions.rs item=enum:CompareOp drop_derive
+//@ extract file=minijinja/src/output.rs item=enum:CaptureMode drop_derive
+//@ extract file=minijinja/src/compiler/instructions.rs item=enum:Instruction drop_derive
+
+/// the documented table: bookkeeping opcodes are free, everything else costs one unit; payloads are irrelevant
+pub open spec fn spec_cost(i: &Instruction) -> int {
+    match i {
+        Instruction::BeginCapture(_) | Instruction::PushLoop(_) | Instruction::PushDidNotIterate | Instruction::PushWith
+        | Instruction::PopFrame | Instruction::PopLoopFrame | Instruction::DupTop | Instruction::DiscardTop
+        | Instruction::PushAutoEscape | Instruction::PopAutoEscape | Instruction::ExportLocals | Instruction::LoadBlocks
+        | Instruction::BuildMacro(..) | Instruction::Return => 0,
+        _ => 1,
+    }
+}
+
+//# ob name=fuel_cost_table verus_fn=fuel_for_instruction fn=vm::fuel::fuel_for_instruction kind=complete stmt="the real fuel_for_instruction (extracted verbatim, over the real Instruction enum) returns exactly the documented table: 0 for the 14 bookkeeping opcodes, 1 for every other opcode, independent of payloads"
+//@ extract file=minijinja/src/vm/fuel.rs item=fn:fuel_for_instruction ret=r
+//@ |    ensures r as int == spec_cost(instruction), 0 <= r <= 1,
 
 //@ extract file=minijinja/src/vm/fuel.rs item=struct:FuelTracker
 
